@@ -119,6 +119,24 @@ def run_family(fam, prop_id, tier, known, stats):
     return disagreements, failures, known_hits
 
 
+def regex_drift():
+    try:
+        base = json.load(open(os.path.join(lib.VERIF, 'harness', 'baseline_regex.json')))
+        from pydiffx.reader import DiffXReader as R
+        import pydiffx.utils.unified_diffs as u
+
+        def txt(x):
+            return x.decode('latin-1') if isinstance(x, bytes) else x
+        cur = {'header_re': txt(R._HEADER_RE.pattern), 'key_re': txt(R._HEADER_OPTION_KEY_RE.pattern),
+               'value_re': txt(R._HEADER_OPTION_VALUE_RE.pattern),
+               'int_re': txt(getattr(R, '_HEADER_OPTION_INT_VALUE_RE', None).pattern) if getattr(R, '_HEADER_OPTION_INT_VALUE_RE', None) else None,
+               'hunk_re': txt(u.UNIFIED_DIFF_HUNK_HEADER_RE.pattern), 'hunk_flags': u.UNIFIED_DIFF_HUNK_HEADER_RE.flags,
+               'marker': txt(u.NO_NEWLINE_MARKER)}
+        return sorted(k for k in base if base[k] != cur.get(k))
+    except Exception as e:
+        return ['unreadable: %s' % type(e).__name__]
+
+
 def check(prop_id, tier):
     t_start = time.time()
     register()
@@ -131,19 +149,28 @@ def check(prop_id, tier):
     problems = []          # things that broke (coq / generation / correspondence), each {kind,name,log}
     if not b.translate_ok:
         problems.append(dict(kind='generation', name='gen/translate.py', log=b.translate_msg))
-    cone = lib.coq_deps('props/%s.v' % prop_id)
+    prop_files = [prop_id] + list(spec.get('extra_props', []))
+    cone = set()
+    for pf in prop_files:
+        cone |= lib.coq_deps('props/%s.v' % pf)
     broken_files = [f for f in b.failed_files if f in cone or f == '?']
     for f in broken_files:
         problems.append(dict(kind='coq', name=f, log=b.first_error.get(f, '')[:1500]))
     ok_props, theorems, passum, plog = (False, [], '', '')
     if not broken_files and b.translate_ok:
-        ok_props, theorems, passum, plog = lib.check_props(prop_id)
-        if not ok_props:
-            problems.append(dict(kind='coq', name='props/%s.v' % prop_id, log=plog[-1500:]))
+        ok_props = True
+        for pf in prop_files:
+            ok1, th1, pa1, pl1 = lib.check_props(pf)
+            theorems += th1
+            passum += pa1
+            if not ok1:
+                ok_props = False
+                problems.append(dict(kind='coq', name='props/%s.v' % pf, log=pl1[-1500:]))
     else:
         import re
-        src = open(os.path.join(lib.COQ, 'props/%s.v' % prop_id)).read()
-        theorems = re.findall(r'^\s*(?:Theorem|Corollary)\s+(\w+)', src, re.M)
+        for pf in prop_files:
+            src = open(os.path.join(lib.COQ, 'props/%s.v' % pf)).read()
+            theorems += re.findall(r'^\s*(?:Theorem|Corollary)\s+(\w+)', src, re.M)
     lint = lib.lint()
     for l in lint:
         problems.append(dict(kind='lint', name=l, log=l))
@@ -160,9 +187,13 @@ def check(prop_id, tier):
 
     stats = {}
     all_dis, all_fail, all_known = [], [], []
+    # the hand model of the reader's / hunk parser's regexes was written against these pattern texts; if a text changed
+    # (harmless respelling or not) the families that tie those models to the code run at their thorough bounds
+    regex_changed = regex_drift()
     for fam in spec['families']:
+        fam_tier = 'thorough' if (regex_changed and fam.name in ('header', 'hunks', 'order')) else tier
         try:
-            d, f, k = run_family(fam, prop_id, tier, known, stats)
+            d, f, k = run_family(fam, prop_id, fam_tier, known, stats)
         except Exception:
             problems.append(dict(kind='harness', name=fam.name, log=traceback.format_exc()[-2000:]))
             continue
@@ -226,8 +257,8 @@ def check(prop_id, tier):
         property_id=prop_id, tier=tier, seed=lib.seed(), level='proof',
         coverage=dict(
             obligations=max(n_ob, 0), discharged=discharged,
-            checker_cmd='cd /verif/coq && make -k -j%d && coqc -Q theories DX -Q gen DXGen -Q props DXProps props/%s.v'
-                        % (lib.NPROC, prop_id),
+            checker_cmd='cd /verif/coq && make -k -j%d && ' % lib.NPROC + ' && '.join(
+                'coqc -Q theories DX -Q gen DXGen -Q props DXProps props/%s.v' % pf for pf in prop_files),
             trusted_base=spec.get('trusted_base', []) + [
                 'Coq 8.16.1 kernel + vm_compute (no native_compute)',
                 'gen/translate.py (runtime-value translation of pydiffx tables)',
@@ -242,6 +273,7 @@ def check(prop_id, tier):
             samples=samples,
             correspondence=stats,
             generated=dict(changed_since_last_run=b.changed_gen),
+            regex_text_changed=regex_changed,
             problems=problems[:10],
             known_findings_printed=printed,
             stale_known_findings=stale,
